@@ -69,9 +69,39 @@ class Outcome:
         self.detail = ""
         self.observed = None
         self.trivial = False
+        self.timed_out = False
 
 
-def check_call(contract: Contract, call: Callable[[], Any], ns_args: Dict[str, Any], time_limit: int = 20) -> Outcome:
+def _exception_class_only(out: "Outcome", call: Callable[[], Any], base: str, time_limit: int) -> "Outcome":
+    """Input outside the contract's precondition: nothing of the contract is claimed, but the property-level exception-class
+    clause still is - only subclasses of `base` may leave the call (bounded native evidence, never counted as proof)."""
+    old = signal.signal(signal.SIGALRM, _alarm)
+    signal.alarm(time_limit)
+    try:
+        r = call()
+        try:
+            out.observed = ("returned %r" % (r,))[:300]
+        except Exception:
+            out.observed = "returned <%s>" % type(r).__name__
+    except Timeout:
+        out.trivial = True
+        out.timed_out = True
+        return out
+    except BaseException as e:  # noqa
+        out.observed = ("raised %s: %s" % (type(e).__name__, str(e)[:200]))
+        if not exc_matches(e, base):
+            out.ok = False
+            out.failed_clause = "noraise#%s" % type(e).__name__
+            out.detail = "outside the contract's precondition, still: only %s may leave; got %s" % (base, type(e).__name__)
+    finally:
+        signal.alarm(0)
+        signal.signal(signal.SIGALRM, old)
+    out.trivial = False
+    return out
+
+
+def check_call(contract: Contract, call: Callable[[], Any], ns_args: Dict[str, Any], time_limit: int = 20,
+               outside_pre_only_raises: Optional[str] = None) -> Outcome:
     """Run `call()` (which invokes the real function on the real arguments) and evaluate the contract natively."""
     assert speclib.CTX is None
     out = Outcome()
@@ -82,9 +112,13 @@ def check_call(contract: Contract, call: Callable[[], Any], ns_args: Dict[str, A
         pre = contract.clauses("pre", ns)
     except Exception as e:  # a precondition that cannot be evaluated: input outside the contract's domain
         out.trivial = True
+        if outside_pre_only_raises:
+            return _exception_class_only(out, call, outside_pre_only_raises, time_limit)
         return out
     if not all(bool(c) for _, c in pre):
         out.trivial = True  # outside the precondition: nothing is claimed
+        if outside_pre_only_raises:
+            return _exception_class_only(out, call, outside_pre_only_raises, time_limit)
         return out
     expected = {}
     for xname, cond in contract.raises.items():
@@ -98,6 +132,7 @@ def check_call(contract: Contract, call: Callable[[], Any], ns_args: Dict[str, A
         result = call()
     except Timeout:
         out.trivial = True
+        out.timed_out = True
         return out
     except BaseException as e:  # noqa
         raised = e
@@ -192,11 +227,19 @@ class NativeSuite:
     input and build(desc) -> (call, ns_args) constructs the real objects and the closure that calls the real function.
     """
 
+    MAX_TIMEOUTS = 3       # after this many calls of the real code ran into the time limit the native run is abandoned
+    CALL_TIME_LIMIT = 10   # seconds per call of the real function
+
     def __init__(self):
         self.cases: List[Tuple[str, Callable, Callable]] = []
+        self.timeouts: List[dict] = []
 
-    def add(self, qualname: str, gen: Callable, build: Callable):
+    def add(self, qualname: str, gen: Callable, build: Callable, outside_pre_only_raises: Optional[str] = None):
+        """outside_pre_only_raises: name of an exception class; inputs outside the contract's precondition are then still
+        executed and only the exception class of the outcome is checked (property-level clause, e.g. C13)."""
         self.cases.append((qualname, gen, build))
+        if outside_pre_only_raises:
+            self.__dict__.setdefault("outside_pre", {})[qualname] = outside_pre_only_raises
 
     def run(self, reg, seed: int, budget: int, only: Optional[str] = None, stop_on_fail: bool = True):
         """Returns (evaluations, nontrivial_distinct, failures[list of dict], samples)."""
@@ -205,7 +248,10 @@ class NativeSuite:
         distinct = set()
         failures = []
         samples = []
+        self.timeouts = getattr(self, "timeouts", [])
         for qualname, gen, build in self.cases:
+            if len(self.timeouts) >= self.MAX_TIMEOUTS:
+                break  # the real code keeps running into the per-call time limit: stop the (bounded) native run
             if only is not None and not qualname.endswith(only) and only not in qualname:
                 continue
             contract = reg.contracts.get(qualname if qualname.startswith("pydsdl.") else "pydsdl." + qualname)
@@ -220,7 +266,12 @@ class NativeSuite:
                 except Exception as e:
                     continue
                 evaluations += 1
-                o = check_call(contract, call, ns_args)
+                o = check_call(contract, call, ns_args, time_limit=self.CALL_TIME_LIMIT,
+                               outside_pre_only_raises=self.__dict__.get("outside_pre", {}).get(qualname))
+                if o.timed_out:
+                    self.timeouts.append({"function": qualname, "input": desc, "limit_s": self.CALL_TIME_LIMIT})
+                    if len(self.timeouts) >= self.MAX_TIMEOUTS:
+                        break
                 if o.trivial:
                     continue
                 key = repr(desc)
@@ -239,5 +290,6 @@ class NativeSuite:
             if q == qualname or q.endswith(qualname) or qualname.endswith(q):
                 contract = reg.contracts.get(q if q.startswith("pydsdl.") else "pydsdl." + q)
                 call, ns_args = build(desc)
-                return check_call(contract, call, ns_args)
+                return check_call(contract, call, ns_args,
+                                  outside_pre_only_raises=self.__dict__.get("outside_pre", {}).get(q))
         raise KeyError(qualname)
